@@ -21,7 +21,7 @@ package operation
 //@   props C06 C07
 //@   requires e != nil ==> ref(e) != 0
 //@   ensures (result1 == nil) == opOK(e)
-//@   ensures result1 == nil ==> typeis(result, "*operation.operation") && ref(result) != 0
+//@   ensures result1 == nil ==> typeis(result, "*operation.operation") && ref(result) != 0 && ptr(result, "operation.operation").Entry == e
 //@   ensures result1 == nil ==> (ptr(result, "operation.operation").Key != nil) == opHasKey(e) && (opHasKey(e) ==> deref(ptr(result, "operation.operation").Key) == opKey(e)) && ptr(result, "operation.operation").Op == opKind(e) && ptr(result, "operation.operation").Value == opValue(e)
 //@   ensures result1 == nil ==> len(ptr(result, "operation.operation").Docs) == opNDocs(e) && (forall i Int :: 0 <= i && i < opNDocs(e) ==> ptr(result, "operation.operation").Docs[i] != nil && ptr(ptr(result, "operation.operation").Docs[i], "operation.opDoc").Key == opDocKey(e, i) && ptr(ptr(result, "operation.operation").Docs[i], "operation.opDoc").Value == opDocVal(e, i))
 //@   modifies "F:operation.operation.Key", "F:operation.operation.Op", "F:operation.operation.Value", "F:operation.operation.Docs", "F:operation.opDoc.Key", "F:operation.opDoc.Value", "C:Str"
@@ -36,4 +36,20 @@ package operation
 //@   loop 1 invariant forall j Int :: 0 <= j && j < i ==> typeis(ret[j], "*operation.opDoc") && ref(ret[j]) == o.Docs[j]
 //@   ensures len(result) == len(o.Docs)
 //@   ensures forall j Int :: 0 <= j && j < len(result) ==> typeis(result[j], "*operation.opDoc") && ref(result[j]) == o.Docs[j]
+//@   modifies nothing
+
+// NewOperationWithDocuments: one batch member per key of the map, each key exactly once, with its value.
+//@ func NewOperationWithDocuments
+//@   props C07
+//@   loop 1 invariant i == $n && len(_docs) == len(docs)
+//@   loop 1 invariant forall p Int :: 0 <= p && p < i ==> allocated(_docs[p])
+//@   loop 1 invariant forall p Int :: 0 <= p && p < i ==> _docs[p] != nil && $seen[ptr(_docs[p], "operation.opDoc").Key] && ptr(_docs[p], "operation.opDoc").Value == docs[ptr(_docs[p], "operation.opDoc").Key]
+//@   loop 1 invariant forall k Str :: $seen[k] ==> (exists p Int :: 0 <= p && p < i && ptr(_docs[p], "operation.opDoc").Key == k)
+//@   loop 1 invariant forall p Int, q Int :: 0 <= p && p < q && q < i ==> ptr(_docs[p], "operation.opDoc").Key != ptr(_docs[q], "operation.opDoc").Key
+//@   loop 1 invariant forall k Str :: (k in docs) == old(k in docs) && docs[k] == old(docs[k])
+//@   ensures typeis(result, "*operation.operation") && ref(result) != 0 && !old(allocated(ref(result)))
+//@   ensures ptr(result, "operation.operation").Key == key && ptr(result, "operation.operation").Op == op && len(ptr(result, "operation.operation").Docs) == len(docs)
+//@   ensures forall p Int :: 0 <= p && p < len(docs) ==> ptr(result, "operation.operation").Docs[p] != nil && (ptr(ptr(result, "operation.operation").Docs[p], "operation.opDoc").Key in docs) && ptr(ptr(result, "operation.operation").Docs[p], "operation.opDoc").Value == docs[ptr(ptr(result, "operation.operation").Docs[p], "operation.opDoc").Key]
+//@   ensures forall k Str :: (k in docs) ==> (exists p Int :: 0 <= p && p < len(docs) && ptr(ptr(result, "operation.operation").Docs[p], "operation.opDoc").Key == k)
+//@   ensures forall p Int, q Int :: 0 <= p && p < q && q < len(docs) ==> ptr(ptr(result, "operation.operation").Docs[p], "operation.opDoc").Key != ptr(ptr(result, "operation.operation").Docs[q], "operation.opDoc").Key
 //@   modifies nothing
